@@ -2,9 +2,9 @@ SPECIFICATION Spec
 CONSTANTS
   DBs1 = {"d1"}
   DBs2 = {}
-  RPs = {"r1", "autogen"}
+  RPs = {"r1", "r2", "autogen"}
   VirtOrgs = {1}
-  MaxOps = 5
+  MaxOps = 4
   MaxMaps = 3
   KeepObs = TRUE
 INVARIANTS TypeOK
